@@ -276,11 +276,17 @@ fn finalize(ctx: &Ctx, rep: Report, wall: f64) -> i32 {
     for l in &lines {
         println!("{}", l);
     }
-    if !rep.engine_failures.is_empty() {
-        for f in &rep.engine_failures {
+    // vacuity guards of spaces that were cut short by the violation cap say nothing
+    let failures: Vec<&String> = rep.engine_failures.iter().filter(|f| !(stopped_early() && f.starts_with("vacuity guard"))).collect();
+    if !failures.is_empty() {
+        for f in &failures {
             eprintln!("ENGINE-FAILURE {}", f);
         }
-        return 3;
+        if new_violations == 0 {
+            return 3;
+        }
+        // violations were found and reproduced: the verdict stands, the engine failures are
+        // printed for the record
     }
     println!(
         "{} {} tier={} seed={} states={} transitions={} violations={} known={} wall={:.1}s",
